@@ -35,6 +35,61 @@ JAC = ("dxidchi", "dpzdrz", "dppdrp")
 NONREAL = ("M", "N", "spacing")
 
 
+def is_guard(st):
+    """`if cond: raise ...` with nothing else in the body and no else branch"""
+    return (isinstance(st, ast.If) and not st.orelse and len(st.body) == 1
+            and isinstance(st.body[0], ast.Raise))
+
+
+def negate(test):
+    """python test equivalent to `not test`, pushed down to the comparisons"""
+    if isinstance(test, ast.UnaryOp) and isinstance(test.op, ast.Not):
+        return test.operand
+    if isinstance(test, ast.BoolOp):
+        op = ast.And() if isinstance(test.op, ast.Or) else ast.Or()
+        return ast.BoolOp(op=op, values=[negate(v) for v in test.values],
+                          lineno=getattr(test, "lineno", 0))
+    if isinstance(test, ast.Compare) and len(test.ops) == 1:
+        inv = {ast.Lt: ast.GtE, ast.LtE: ast.Gt, ast.Gt: ast.LtE, ast.GtE: ast.Lt}.get(
+            type(test.ops[0]))
+        if inv is not None:
+            return ast.Compare(left=test.left, ops=[inv()], comparators=test.comparators,
+                               lineno=getattr(test, "lineno", 0))
+    if isinstance(test, ast.Compare) and len(test.ops) == 2:
+        a = ast.Compare(left=test.left, ops=[test.ops[0]], comparators=[test.comparators[0]])
+        b = ast.Compare(left=test.comparators[0], ops=[test.ops[1]],
+                        comparators=[test.comparators[1]])
+        return ast.BoolOp(op=ast.Or(), values=[negate(a), negate(b)],
+                          lineno=getattr(test, "lineno", 0))
+    raise TranslateError("cannot negate the guard %s" % ast.unparse(test)[:60])
+
+
+def is_log_call(v):
+    """logging.* / logger.* / warnings.* / print call: no effect on the model"""
+    if not isinstance(v, ast.Call):
+        return False
+    f = v.func
+    if isinstance(f, ast.Name) and f.id == "print":
+        return True
+    while isinstance(f, ast.Attribute):
+        f = f.value
+    return isinstance(f, ast.Name) and f.id in ("logging", "logger", "warnings", "log")
+
+
+def only_nonreal(test):
+    """the test mentions only sizes / the spacing keyword (not modelled)"""
+    names = set()
+    for n in ast.walk(test):
+        if isinstance(n, ast.Name):
+            names.add(n.id)
+        elif isinstance(n, ast.Attribute) and isinstance(n.value, ast.Name) and \
+                n.value.id == "self":
+            names.add(n.attr)
+    names -= {"self", "int", "isinstance", "len", "str", "type"}
+    return bool(names) and names <= set(NONREAL)
+
+
+
 class GridTranslator(pyrx.ClassTranslator):
     """pyrx + the idioms of grid.py / grid3Scales.py."""
 
@@ -45,6 +100,8 @@ class GridTranslator(pyrx.ClassTranslator):
         self.fn = fns
         self.known_closures = {}
         self.ops = {}            # op-method name -> list of its R parameters (Coq order)
+        self.xops = {}           # op-method name -> (coq name, params) of its version with exits
+        self.xmode = False
 
     # np.arctanh(u + 0j).real  ->  atanh_R u
     def expr(self, node, env):
@@ -67,6 +124,10 @@ class GridTranslator(pyrx.ClassTranslator):
 
     # nested closures calling earlier nested closures
     def block(self, stmts, env, k):
+        if stmts and is_guard(stmts[0]):
+            # `if cond: raise ...` == `assert not cond` (recorded, no-op on the normal path)
+            self.asserts.append("not (%s)" % ast.unparse(stmts[0].test))
+            return self.block(stmts[1:], env, k)
         if stmts and isinstance(stmts[0], ast.FunctionDef) and \
                 stmts[0].name in self.known_closures:
             env2 = env.copy()
@@ -101,8 +162,9 @@ class GridTranslator(pyrx.ClassTranslator):
                 parts.append("%s %s %s" % (self.expr(left, env), sym, self.expr(right, env)))
                 left = right
             return " /\\ ".join(parts)
-        if isinstance(node, ast.BoolOp) and isinstance(node.op, ast.And):
-            return " /\\ ".join("(%s)" % self.prop(v, env) for v in node.values)
+        if isinstance(node, ast.BoolOp):
+            j = " /\\ " if isinstance(node.op, ast.And) else " \\/ "
+            return j.join("(%s)" % self.prop(v, env) for v in node.values)
         raise TranslateError("assert test %s" % ast.unparse(node)[:60])
 
     def precondition(self, name):
@@ -115,16 +177,209 @@ class GridTranslator(pyrx.ClassTranslator):
             env.v[p] = p
         props = []
         for st in fn.body:
-            if isinstance(st, ast.Assert):
+            if isinstance(st, ast.Assert) or is_guard(st):
                 for n in ast.walk(st.test):
                     if isinstance(n, ast.Attribute):
                         raise TranslateError("assert reads %s" % ast.unparse(n))
-                props.append(self.prop(st.test, env))
+                props.append(self.prop(st.test, env) if isinstance(st, ast.Assert)
+                             else self.prop(negate(st.test), env))
         if not props:
             raise TranslateError("%s has no assertions" % name)
         return "Definition %s_pre %s: Prop :=\n  %s." % (
             self.an(name), "".join("(%s : R) " % p for p in params),
             " /\\\n  ".join("(%s)" % p for p in props))
+
+    # ---- methods with their error exits ------------------------------------------------
+    def raising_method(self, name, coq_name=None):
+        """State-mode method translated WITH its assertions / guards, in program order:
+        result (state at the moment of return or raise, completed?).  A store that precedes
+        a failing assertion therefore shows in the returned state."""
+        fn = self.fn.get(name)
+        if fn is None:
+            raise TranslateError("method %s not found" % name)
+        env = pyrx.Env()
+        ps = self.params(fn)
+        for p_, _ in ps:
+            env.v[p_] = p_
+
+        def walk(stmts, env):
+            if not stmts:
+                return "(s, true)"
+            st, rest = stmts[0], stmts[1:]
+            if isinstance(st, ast.Expr) and isinstance(st.value, ast.Constant):
+                return walk(rest, env)
+            if isinstance(st, ast.Expr) and is_log_call(st.value):
+                return walk(rest, env)
+            if isinstance(st, ast.Pass):
+                return walk(rest, env)
+            if isinstance(st, ast.Assert):
+                return "if %s\n  then (%s)\n  else (s, false)" % (
+                    self._bool(st.test, env), walk(rest, env))
+            if is_guard(st):
+                return "if %s\n  then (s, false)\n  else (%s)" % (
+                    self._bool(st.test, env), walk(rest, env))
+            if isinstance(st, ast.Return) and st.value is None:
+                return "(s, true)"
+            if isinstance(st, ast.Assign) and len(st.targets) == 1:
+                tg = st.targets[0]
+                a = self._self_attr(tg)
+                if a is not None and a in self.attrs:
+                    return "let s := set_%s %s s in\n  %s" % (
+                        self.an(a), self.expr(st.value, env), walk(rest, env))
+                if isinstance(tg, ast.Name):
+                    nm = self.newname(tg.id)
+                    env2 = env.copy()
+                    env2.v[tg.id] = nm
+                    return "let %s := %s in\n  %s" % (nm, self.expr(st.value, env),
+                                                      walk(rest, env2))
+            raise TranslateError("%s: statement outside the subset: %s (line %d)" % (
+                name, ast.unparse(st).splitlines()[0][:60], st.lineno))
+        body = walk(list(fn.body), env)
+        cn = coq_name or self.an(name) + "_x"
+        self.spans[cn] = (fn.lineno, fn.end_lineno, pyrx._sha(ast.unparse(fn)))
+        return "Definition %s (e : %senv) (s : %sst) %s: %sst * bool :=\n  %s." % (
+            cn, self.prefix, self.prefix, "".join("(%s : R) " % p_ for p_, _ in ps),
+            self.prefix, body)
+
+    def may_raise(self, name, seen=()):
+        """does the method (transitively, through self.<m>() and super().__init__) contain an
+        assertion / raise on modelled quantities?"""
+        fn = self.fn.get(name)
+        if fn is None or name in seen:
+            return False
+        for n in ast.walk(fn):
+            if isinstance(n, ast.Assert) and not only_nonreal(n.test):
+                return True
+            if isinstance(n, ast.If) and any(isinstance(b, ast.Raise) for b in n.body) and \
+                    not only_nonreal(n.test):
+                return True
+            if isinstance(n, ast.Call):
+                m = self._self_attr(n.func)
+                if m is not None and m in self.fn and self.may_raise(m, seen + (name,)):
+                    return True
+        return False
+
+    # ---- getters ------------------------------------------------------------------------
+    def getter_method(self, name, coq_name=None, direction="<none>"):
+        """A getter: returns (tuples of) arrays built from the stored arrays, python lists of
+        them and the constants +-1 / +-inf, depending on the bool parameter `endpoints` (and,
+        specialised at translation time, on the string parameter `direction`).  Arrays are
+        `list ext` (Lib/GridMapsCache.v)."""
+        fn = self.fn.get(name)
+        if fn is None:
+            raise TranslateError("method %s not found" % name)
+        ps = [a.arg for a in fn.args.args if a.arg != "self"]
+        if fn.args.vararg or fn.args.kwarg or fn.args.kwonlyargs or \
+                not set(ps) <= {"endpoints", "direction"}:
+            raise TranslateError("%s: unexpected signature %s" % (name, ps))
+        if direction != "<none>" and "direction" not in ps:
+            raise TranslateError("%s has no direction parameter" % name)
+        env = {}
+
+        def scalar(n):
+            c = pyrx.const_value(n)
+            if c is not None:
+                return "(Fin %s)" % pyrx.rlit(c)
+            neg = isinstance(n, ast.UnaryOp) and isinstance(n.op, ast.USub)
+            m = n.operand if neg else n
+            if isinstance(m, ast.Attribute) and isinstance(m.value, ast.Name) and \
+                    m.value.id in ("np", "numpy", "math") and m.attr == "inf":
+                return "NegInf" if neg else "PosInf"
+            raise TranslateError("%s: list element %s (line %d)" % (name, ast.unparse(n)[:40],
+                                                                    n.lineno))
+
+        def pylist(n):
+            if isinstance(n, ast.List):
+                return "[" + "; ".join(scalar(x) for x in n.elts) + "]"
+            if isinstance(n, ast.Call) and isinstance(n.func, ast.Name) and \
+                    n.func.id == "list" and len(n.args) == 1 and not n.keywords:
+                a = self._self_attr(n.args[0])
+                if a in COMPACT + PHYS + JAC:
+                    return "(map Fin (%s c))" % a
+            if isinstance(n, ast.BinOp) and isinstance(n.op, ast.Add):
+                return "(%s ++ %s)" % (pylist(n.left), pylist(n.right))
+            raise TranslateError("%s: list expression %s (line %d)" % (
+                name, ast.unparse(n)[:50], n.lineno))
+
+        def arr(n, env):
+            if isinstance(n, ast.Name) and n.id in env:
+                return env[n.id]
+            a = self._self_attr(n)
+            if a in COMPACT + PHYS + JAC:
+                return "(map Fin (%s c))" % a
+            if isinstance(n, ast.Call) and isinstance(n.func, ast.Attribute) and \
+                    isinstance(n.func.value, ast.Name) and n.func.value.id in ("np", "numpy") \
+                    and n.func.attr in ("array", "asarray") and len(n.args) == 1 \
+                    and not n.keywords:
+                return pylist(n.args[0])
+            if isinstance(n, ast.Tuple):
+                return "(" + ", ".join(arr(x, env) for x in n.elts) + ")"
+            raise TranslateError("%s: array expression %s (line %d)" % (
+                name, ast.unparse(n)[:50], getattr(n, "lineno", 0)))
+
+        def static(test):
+            """value of a test on `direction`, decided at translation time"""
+            if isinstance(test, ast.Compare) and len(test.ops) == 1 and \
+                    isinstance(test.left, ast.Name) and test.left.id == "direction" and \
+                    isinstance(test.comparators[0], ast.Constant):
+                v = test.comparators[0].value
+                d = None if direction == "<none>" else direction
+                if isinstance(test.ops[0], ast.Eq):
+                    return d == v
+                if isinstance(test.ops[0], ast.NotEq):
+                    return d != v
+                if isinstance(test.ops[0], ast.Is):
+                    return d is v
+                if isinstance(test.ops[0], ast.IsNot):
+                    return d is not v
+            return None
+
+        def walk(stmts, env):
+            if not stmts:
+                raise TranslateError("%s can fall off its end" % name)
+            st, rest = stmts[0], stmts[1:]
+            if isinstance(st, ast.Expr) and (isinstance(st.value, ast.Constant)
+                                             or is_log_call(st.value)):
+                return walk(rest, env)
+            if isinstance(st, ast.Return) and st.value is not None:
+                return arr(st.value, env)
+            if isinstance(st, ast.Assign) and len(st.targets) == 1:
+                tg = st.targets[0]
+                env2 = dict(env)
+                if isinstance(tg, ast.Name):
+                    nm = self.newname(tg.id)
+                    env2[tg.id] = nm
+                    return "let %s := %s in\n  %s" % (nm, arr(st.value, env), walk(rest, env2))
+                if isinstance(tg, ast.Tuple) and all(isinstance(x, ast.Name) for x in tg.elts) \
+                        and isinstance(st.value, ast.Tuple) and \
+                        len(st.value.elts) == len(tg.elts):
+                    out = []
+                    for x, v in zip(tg.elts, st.value.elts):
+                        nm = self.newname(x.id)
+                        out.append("let %s := %s in" % (nm, arr(v, env)))
+                        env2[x.id] = nm
+                    return "\n  ".join(out) + "\n  " + walk(rest, env2)
+            if isinstance(st, ast.If):
+                sv = static(st.test)
+                if sv is not None:
+                    return walk((list(st.body) if sv else list(st.orelse)) + rest, env)
+                if isinstance(st.test, ast.Name) and st.test.id == "endpoints":
+                    return "if endpoints\n  then (%s)\n  else (%s)" % (
+                        walk(list(st.body) + rest, dict(env)),
+                        walk(list(st.orelse) + rest, dict(env)))
+            raise TranslateError("%s: statement outside the getter subset: %s (line %d)" % (
+                name, ast.unparse(st).splitlines()[0][:60], st.lineno))
+        body = walk(list(fn.body), env)
+        cn = coq_name or self.an(name)
+        self.spans[cn] = (fn.lineno, fn.end_lineno, pyrx._sha(ast.unparse(fn)))
+        defaults = {a.arg: d for a, d in zip(fn.args.args[::-1], fn.args.defaults[::-1])}
+        for q in ps:
+            want = {"endpoints": False, "direction": None}[q]
+            d = defaults.get(q)
+            if not (isinstance(d, ast.Constant) and d.value is want):
+                raise TranslateError("%s: default of %s is not %r" % (name, q, want))
+        return "Definition %s (e : %senv) (c : cache %sst) (endpoints : bool) :=\n  %s." % (
+            cn, self.prefix, self.prefix, body)
 
     # ---- cache-managing methods ---------------------------------------------------
     def _self_attr(self, node):
@@ -137,8 +392,11 @@ class GridTranslator(pyrx.ClassTranslator):
         return (isinstance(node, ast.Call) and self._self_attr(node.func) == name
                 and not node.keywords)
 
-    def op_method(self, name, coq_name=None, super_init=None):
-        """Translate a cache-managing method into a transformer of `cache <st>`."""
+    def op_method(self, name, coq_name=None, super_init=None, xmode=False):
+        """Translate a cache-managing method into a transformer of `cache <st>`.
+        xmode: with the error exits (assertions, guards, raising callees) in program order;
+        the result is (object state at return or at the raise, completed?)."""
+        self.xmode = xmode
         fn = self.fn.get(name)
         if fn is None:
             raise TranslateError("method %s not found" % name)
@@ -155,14 +413,19 @@ class GridTranslator(pyrx.ClassTranslator):
         finally:
             self.svar = "s"
         used = [p for p in params if pyrx._mentions_word(body, p)]
-        cn = coq_name or self.an(name)
-        self.ops[name] = used
+        cn = coq_name or (self.an(name) + ("_x" if xmode else ""))
+        if xmode:
+            self.xops[name] = (cn, used)
+        else:
+            self.ops[name] = used
+        self.xmode = False
         self.spans[cn] = (fn.lineno, fn.end_lineno, pyrx._sha(ast.unparse(fn)))
         self.op_notes = getattr(self, "op_notes", {})
         self.op_notes[name] = notes
-        return "Definition %s (e : %senv) (c : cache %sst) %s: cache %sst :=\n  %s." % (
+        return "Definition %s (e : %senv) (c : cache %sst) %s: cache %sst%s :=\n  %s." % (
             cn, self.prefix, self.prefix,
-            "".join("(%s : R) " % p for p in used), self.prefix, body)
+            "".join("(%s : R) " % p for p in used), self.prefix,
+            " * bool" if xmode else "", body)
 
     def _upd(self, fun):
         return "let c := upd_params (fun s => %s) c in" % fun
@@ -213,14 +476,69 @@ class GridTranslator(pyrx.ClassTranslator):
 
     def _op_block(self, stmts, env, mname, notes, super_init):
         """Coq term of type cache for a statement list (falling off the end returns c)"""
+        done = "(c, true)" if self.xmode else "c"
         if not stmts:
-            return "c"
+            return done
         st, rest = stmts[0], stmts[1:]
         if isinstance(st, ast.Return):
             if st.value is not None and not (isinstance(st.value, ast.Constant)
                                              and st.value.value is None):
                 raise TranslateError("%s returns a value (line %d)" % (mname, st.lineno))
-            return "c"
+            return done
+        if (isinstance(st, ast.Assert) or is_guard(st)) and only_nonreal(st.test):
+            notes.append("%s (sizes / spacing keyword: not modelled)" % ast.unparse(st.test))
+            return self._op_block(rest, env, mname, notes, super_init)
+        if isinstance(st, ast.Assert) or is_guard(st):
+            self.asserts.append(ast.unparse(st.test))
+            tail = self._op_block(rest, env, mname, notes, super_init)
+            if not self.xmode:
+                return tail
+            cond = self._bool(st.test, env)
+            if isinstance(st, ast.Assert):
+                return "if %s\n  then (%s)\n  else (c, false)" % (cond, tail)
+            return "if %s\n  then (c, false)\n  else (%s)" % (cond, tail)
+        if self.xmode and isinstance(st, ast.Expr) and isinstance(st.value, ast.Call):
+            v = st.value
+            r = self.newname("r")
+            if self._is_self_call(v, "_updateParameters"):
+                args = " ".join(self.expr(x, env) for x in v.args)
+                if len(v.args) != len(self.fn["_updateParameters"].args.args) - 1:
+                    raise TranslateError("_updateParameters arity (line %d)" % st.lineno)
+                return ("let %s := %s_x e (params c) %s in\n  "
+                        "let c := upd_params (fun _ => fst %s) c in\n  "
+                        "if snd %s\n  then (%s)\n  else (c, false)" % (
+                            r, self.an("_updateParameters"), args, r, r,
+                            self._op_block(rest, env, mname, notes, super_init)))
+            f = v.func
+            if (super_init is not None and len(super_init) > 3 and super_init[3]
+                    and isinstance(f, ast.Attribute) and f.attr == "__init__"
+                    and isinstance(f.value, ast.Call) and isinstance(f.value.func, ast.Name)
+                    and f.value.func.id == "super" and not f.value.args and not v.keywords):
+                base_fn, _, base_used, xname = super_init
+                bparams = [a.arg for a in base_fn.args.args if a.arg != "self"]
+                if len(v.args) != len(bparams):
+                    raise TranslateError("super().__init__ arity (line %d)" % st.lineno)
+                actual = dict(zip(bparams, v.args))
+                args = " ".join(self.expr(actual[q], env) for q in base_used)
+                return ("let %s := %s e c %s in\n  let c := fst %s in\n  "
+                        "if snd %s\n  then (%s)\n  else (c, false)" % (
+                            r, xname, args, r, r,
+                            self._op_block(rest, env, mname, notes, super_init)))
+            m = self._self_attr(v.func)
+            if m in self.xops and not v.keywords:
+                cn, used = self.xops[m]
+                ps = [a.arg for a in self.fn[m].args.args if a.arg != "self"]
+                if len(v.args) != len(ps):
+                    raise TranslateError("%s arity (line %d)" % (m, st.lineno))
+                actual = dict(zip(ps, v.args))
+                args = " ".join(self.expr(actual[q], env) for q in used)
+                return ("let %s := %s e c %s in\n  let c := fst %s in\n  "
+                        "if snd %s\n  then (%s)\n  else (c, false)" % (
+                            r, cn, args, r, r,
+                            self._op_block(rest, env, mname, notes, super_init)))
+            if m is not None and m in self.fn and self.may_raise(m):
+                raise TranslateError("%s calls %s, which can raise, before its translation"
+                                     % (mname, m))
         if isinstance(st, ast.If) and not (mname == "__init__" and any(
                 self._self_attr(n) == "spacing" for n in ast.walk(st.test))):
             cond = self._bool(st.test, env)
@@ -256,8 +574,9 @@ class GridTranslator(pyrx.ClassTranslator):
         if isinstance(st, ast.Expr) and isinstance(st.value, ast.Constant) and \
                 isinstance(st.value.value, str):
             return []
-        if isinstance(st, ast.Assert):
-            self.asserts.append(ast.unparse(st.test))
+        if isinstance(st, ast.Expr) and is_log_call(st.value):
+            return []
+        if isinstance(st, ast.Pass):
             return []
         if isinstance(st, ast.Assign) and len(st.targets) == 1:
             tg = st.targets[0]
@@ -298,7 +617,7 @@ class GridTranslator(pyrx.ClassTranslator):
                     and isinstance(f.value.func, ast.Name)
                     and f.value.func.id == "super" and not f.value.args
                     and not v.keywords):
-                base_fn, base_coq, base_used = super_init
+                base_fn, base_coq, base_used = super_init[:3]
                 bparams = [a.arg for a in base_fn.args.args if a.arg != "self"]
                 if len(v.args) != len(bparams):
                     raise TranslateError("super().__init__ arity (line %d)" % st.lineno)
@@ -322,16 +641,108 @@ class GridTranslator(pyrx.ClassTranslator):
                              % (mname, ast.unparse(st).splitlines()[0][:70], st.lineno))
 
 
+KNOWN_METHODS = {
+    "Grid": ["__init__", "_cacheCoordinates", "changeMomentumFalloffScale",
+             "changePositionFalloffScale", "getCompactCoordinates", "getCoordinates",
+             "getCompactificationDerivatives", "compactify", "decompactify",
+             "compactificationDerivatives"],
+    "Grid3Scales": ["__init__", "changePositionFalloffScale", "_updateParameters",
+                    "decompactify", "compactificationDerivatives",
+                    # may be overridden (translated through the method resolution):
+                    "_cacheCoordinates", "changeMomentumFalloffScale", "getCompactCoordinates",
+                    "getCoordinates", "getCompactificationDerivatives", "compactify"],
+}
+GETTERS = ["getCompactCoordinates", "getCoordinates", "getCompactificationDerivatives"]
+
+
+def check_module(src, fname, classes):
+    """Only imports, a docstring, the expected class(es) and plain-name constants may stand at
+    module level (a rebinding such as `Grid3Scales.f = ...` after the class, or a second
+    definition of a class, would make the class body differ from the running class)."""
+    tree = ast.parse(src)
+    seen = []
+    for n in tree.body:
+        if isinstance(n, (ast.Import, ast.ImportFrom)):
+            continue
+        if isinstance(n, ast.Expr) and isinstance(n.value, ast.Constant) and \
+                isinstance(n.value.value, str):
+            continue
+        if isinstance(n, ast.ClassDef):
+            if n.decorator_list or n.keywords:
+                raise TranslateError("%s: class %s has decorators / keywords" % (fname, n.name))
+            seen.append(n.name)
+            continue
+        if isinstance(n, ast.Assign) and all(isinstance(t, ast.Name) for t in n.targets) and \
+                not any(isinstance(m, ast.Name) and m.id in classes for m in ast.walk(n.value)) \
+                and not any(t.id in classes for t in n.targets):
+            continue
+        raise TranslateError("%s: module-level statement `%s` (line %d)" % (
+            fname, ast.unparse(n).splitlines()[0][:60], n.lineno))
+    for c in classes:
+        if seen.count(c) != 1:
+            raise TranslateError("%s: class %s defined %d times" % (fname, c, seen.count(c)))
+    for c in seen:
+        if c not in classes:
+            raise TranslateError("%s: additional class %s" % (fname, c))
+
+
 def class_fns(src, cls):
     tree = ast.parse(src)
     for n in tree.body:
         if isinstance(n, ast.ClassDef) and n.name == cls:
-            return n, {f.name: f for f in n.body if isinstance(f, ast.FunctionDef)}
+            fns = {}
+            for f in n.body:
+                if isinstance(f, ast.FunctionDef):
+                    if f.name in fns:
+                        raise TranslateError("%s.%s defined twice" % (cls, f.name))
+                    fns[f.name] = f
+            return n, fns
     raise TranslateError("class %s not found" % cls)
+
+
+def check_methods(cls, fns, notes):
+    """Methods outside the allow-list: rejected when they can change the object (store to an
+    attribute of self, setattr/delattr, __dict__, dunder methods), noted otherwise."""
+    for nm, f in fns.items():
+        if nm in KNOWN_METHODS[cls]:
+            continue
+        if nm.startswith("__") and nm.endswith("__"):
+            raise TranslateError("%s defines the special method %s" % (cls, nm))
+        for n in ast.walk(f):
+            bad = None
+            if isinstance(n, (ast.Attribute, ast.Subscript)) and \
+                    isinstance(n.ctx, (ast.Store, ast.Del)):
+                root = n
+                while isinstance(root, (ast.Attribute, ast.Subscript)):
+                    root = root.value
+                if isinstance(root, ast.Name) and root.id == "self":
+                    bad = ast.unparse(n)
+            if isinstance(n, ast.Call) and isinstance(n.func, ast.Name) and \
+                    n.func.id in ("setattr", "delattr", "vars"):
+                bad = ast.unparse(n)[:40]
+            if isinstance(n, ast.Attribute) and n.attr == "__dict__":
+                bad = "__dict__"
+            if isinstance(n, ast.Call) and self_attr_call(n) in KNOWN_METHODS[cls] and \
+                    not self_attr_call(n).startswith("get") and \
+                    self_attr_call(n) not in POINT_METHODS:
+                bad = "call of self.%s" % self_attr_call(n)
+            if bad:
+                raise TranslateError("%s.%s is not a modelled method and changes the object "
+                                     "(%s, line %d)" % (cls, nm, bad, n.lineno))
+        notes.append("%s.%s: not modelled (no store to self)" % (cls, nm))
+
+
+def self_attr_call(n):
+    f = n.func
+    if isinstance(f, ast.Attribute) and isinstance(f.value, ast.Name) and f.value.id == "self":
+        return f.attr
+    return ""
 
 
 def generate(src_grid, src_g3):
     """Returns (coq text, info dict)."""
+    check_module(src_grid, "grid.py", ["Grid"])
+    check_module(src_g3, "grid3Scales.py", ["Grid3Scales"])
     gcls, gf = class_fns(src_grid, "Grid")
     g3cls, g3f = class_fns(src_g3, "Grid3Scales")
     bases = [ast.unparse(b) for b in g3cls.bases]
@@ -347,11 +758,25 @@ def generate(src_grid, src_g3):
         for f in cls.body:
             if isinstance(f, ast.FunctionDef) and f.decorator_list:
                 raise TranslateError("decorated method %s" % f.name)
+    mnotes = []
+    check_methods("Grid", gf, mnotes)
+    check_methods("Grid3Scales", g3f, mnotes)
     out = [pyrx.COQ_PRELUDE,
            "From Coq Require Import List.\nImport ListNotations.\n"
            "From WG Require Import Lib.GridMapsCache.",
            "(* generated from src/WallGo/grid.py and src/WallGo/grid3Scales.py *)"]
-    info = {}
+    info = dict(method_notes=mnotes)
+
+    def translate_class(t, base_init=None):
+        """common part: point functions are emitted by the caller; here the cache-managing
+        methods (total versions and, for those that can raise, versions with error exits)
+        and the getters"""
+        res = []
+        order = ["_cacheCoordinates", "changeMomentumFalloffScale",
+                 "changePositionFalloffScale"]
+        for m in order:
+            res.append(t.op_method(m))
+        return res
 
     # ---------------- Grid ----------------
     g = GridTranslator(dict(gf), G_ATTRS, "g_")
@@ -359,12 +784,20 @@ def generate(src_grid, src_g3):
     out.append(g.header(extra_vars=[("g_unit", "unit")]))
     for m in POINT_METHODS:
         out.append(g.method(m))
-    out.append(g.op_method("_cacheCoordinates"))
-    out.append(g.op_method("changeMomentumFalloffScale"))
-    out.append(g.op_method("changePositionFalloffScale"))
+    out += translate_class(g)
     out.append(g.op_method("__init__", coq_name="g_init"))
+    for m in ["_cacheCoordinates", "changeMomentumFalloffScale", "changePositionFalloffScale",
+              "__init__"]:
+        if g.may_raise(m):
+            out.append(g.op_method(m, coq_name="g_init_x" if m == "__init__" else None,
+                                   xmode=True))
+    for m in GETTERS:
+        out.append(g.getter_method(m))
+    for d in ("z", "pz", "pp"):
+        out.append(g.getter_method("getCompactCoordinates",
+                                   coq_name="g_getCompactCoordinates_" + d, direction=d))
     info["Grid"] = dict(spans=g.spans, asserts=list(g.asserts), ops=dict(g.ops),
-                        notes=g.op_notes)
+                        xops={k: v[0] for k, v in g.xops.items()}, notes=g.op_notes)
 
     # ---------------- Grid3Scales (method resolution: own methods, then Grid's) ----
     fns = dict(gf)
@@ -374,31 +807,246 @@ def generate(src_grid, src_g3):
     out.append(t.header(extra_vars=[("g3_unit", "unit")]))
     out.append(t.method("_updateParameters"))
     out.append(t.precondition("_updateParameters"))
+    out.append(t.raising_method("_updateParameters"))
     info["g3_update_asserts"] = list(t.asserts)
     out += t.closures_of("decompactify", ["term1", "term2", "term3", "term4", "term5",
                                           "totalMapping"])
     for m in POINT_METHODS:
         out.append(t.method(m))
-    out.append(t.op_method("_cacheCoordinates"))
-    out.append(t.op_method("changeMomentumFalloffScale"))
-    out.append(t.op_method("changePositionFalloffScale"))
+    out += translate_class(t)
+    for m in ["_cacheCoordinates", "changeMomentumFalloffScale", "changePositionFalloffScale"]:
+        if t.may_raise(m):
+            out.append(t.op_method(m, xmode=True))
+    if "changePositionFalloffScale" not in t.xops:
+        raise TranslateError("changePositionFalloffScale cannot raise: the assertions of "
+                             "_updateParameters are not reached from it")
     # the base-class constructor, executed on a Grid3Scales object
-    t.fn["__base_init__"] = gf["__init__"]
     saved = t.fn["__init__"]
     t.fn["__init__"] = gf["__init__"]
     out.append(t.op_method("__init__", coq_name="g3_base_init"))
     base_used = t.ops["__init__"]
+    base_x = None
+    if t.may_raise("__init__"):
+        out.append(t.op_method("__init__", coq_name="g3_base_init_x", xmode=True))
+        base_x = "g3_base_init_x"
+        t.xops.pop("__init__")
     t.fn["__init__"] = saved
     out.append(t.op_method("__init__", coq_name="g3_init",
-                           super_init=(gf["__init__"], "g3_base_init", base_used)))
+                           super_init=(gf["__init__"], "g3_base_init", base_used, base_x)))
+    out.append(t.op_method("__init__", coq_name="g3_init_x", xmode=True,
+                           super_init=(gf["__init__"], "g3_base_init", base_used, base_x)))
+    for m in GETTERS:
+        out.append(t.getter_method(m))
+    for d in ("z", "pz", "pp"):
+        out.append(t.getter_method("getCompactCoordinates",
+                                   coq_name="g3_getCompactCoordinates_" + d, direction=d))
     info["Grid3Scales"] = dict(spans=t.spans, asserts=list(t.asserts), ops=dict(t.ops),
-                               notes=t.op_notes,
+                               xops={k: v[0] for k, v in t.xops.items()}, notes=t.op_notes,
                                inherited=sorted(set(gf) - set(g3f)))
     return "\n".join(out) + "\n", info
+
+
+# ---------------------------------------------------------------------------------------
+# facts about the rest of the package (tie F): who writes to a grid object, and with which
+# arguments the two callers of the three-scale grid call it
+
+PUBLIC_GRID_API = set(GETTERS + POINT_METHODS + ["changePositionFalloffScale",
+                                                 "changeMomentumFalloffScale"])
+INPLACE = {"sort", "fill", "resize", "put", "itemset", "setfield", "partition", "byteswap",
+           "setflags", "clip"}
+GRID_FILES = ("grid.py", "grid3Scales.py")
+
+
+def is_grid_expr(n):
+    """expression that (by its name) denotes a Grid object: grid, self.grid, dummyGrid, ..."""
+    if isinstance(n, ast.Name):
+        ident = n.id
+    elif isinstance(n, ast.Attribute):
+        ident = n.attr
+    else:
+        return False
+    low = ident.lower()
+    return low.endswith("grid") and not low.startswith("config")
+
+
+def foreign_grid_writes(sources):
+    """[(file, line, text)]: every place outside grid.py / grid3Scales.py that stores to (or
+    deletes) an attribute of a grid object or an element of one of its arrays, calls
+    setattr/delattr on it, calls a non-public method of it, or mutates one of its arrays in
+    place."""
+    out = []
+    for fname in sorted(sources):
+        if fname in GRID_FILES:
+            continue
+        tree = ast.parse(sources[fname])
+        for n in ast.walk(tree):
+            tgts = []
+            if isinstance(n, ast.Assign):
+                tgts = list(n.targets)
+            elif isinstance(n, (ast.AugAssign, ast.AnnAssign)):
+                tgts = [n.target]
+            elif isinstance(n, ast.Delete):
+                tgts = list(n.targets)
+            elif isinstance(n, (ast.For, ast.AsyncFor)):
+                tgts = [n.target]
+            elif isinstance(n, ast.With):
+                tgts = [i.optional_vars for i in n.items if i.optional_vars is not None]
+            while tgts:
+                t = tgts.pop()
+                if isinstance(t, (ast.Tuple, ast.List)):
+                    tgts += list(t.elts)
+                    continue
+                if isinstance(t, ast.Starred):
+                    tgts.append(t.value)
+                    continue
+                while isinstance(t, ast.Subscript):
+                    t = t.value
+                if isinstance(t, ast.Attribute) and is_grid_expr(t.value):
+                    out.append((fname, t.lineno, ast.unparse(t)))
+            if isinstance(n, ast.Call):
+                f = n.func
+                if isinstance(f, ast.Name) and f.id in ("setattr", "delattr") and n.args and \
+                        is_grid_expr(n.args[0]):
+                    out.append((fname, n.lineno, ast.unparse(n)[:60]))
+                if isinstance(f, ast.Attribute) and is_grid_expr(f.value) and \
+                        (f.attr.startswith("_") or f.attr in ("__init__",)) :
+                    out.append((fname, n.lineno, ast.unparse(f)))
+                if isinstance(f, ast.Attribute) and f.attr in INPLACE and \
+                        isinstance(f.value, ast.Attribute) and is_grid_expr(f.value.value):
+                    out.append((fname, n.lineno, ast.unparse(f)))
+                for kw in n.keywords:
+                    if kw.arg == "out":
+                        v = kw.value
+                        while isinstance(v, ast.Subscript):
+                            v = v.value
+                        if isinstance(v, ast.Attribute) and is_grid_expr(v.value):
+                            out.append((fname, n.lineno, "out=" + ast.unparse(kw.value)))
+            if isinstance(n, ast.Attribute) and n.attr == "__dict__" and is_grid_expr(n.value):
+                out.append((fname, n.lineno, ast.unparse(n)))
+    return out
+
+
+def call_site(src, cls, method, callee, externals, opaque_ok, result_names, prefix):
+    """The arguments with which `method` of `cls` calls `callee` (an ast pattern predicate on
+    the call), as a Coq function of the externals (Pattern list), the method parameters and
+    the locals named in `opaque_ok` (quantities computed from arrays / configuration that the
+    model does not look into).  The method must be a straight line of local assignments
+    (plus docstrings, logging, guards on untranslated quantities) followed by exactly one
+    statement containing the call; the grid may not be touched otherwise."""
+    tr = pyrx.ClassTranslator(src, cls, [], externals, [], state=False, prefix=prefix)
+    fn = tr.fn.get(method)
+    if fn is None:
+        raise TranslateError("%s.%s not found" % (cls, method))
+    env = pyrx.Env()
+    params = [a.arg for a in fn.args.args if a.arg != "self"]
+    for p_ in params:
+        env.v[p_] = p_
+    lets, opaque, call = [], [], None
+    body = list(fn.body)
+    for i, st in enumerate(body):
+        if isinstance(st, ast.Expr) and isinstance(st.value, ast.Constant):
+            continue
+        if isinstance(st, ast.Expr) and is_log_call(st.value):
+            continue
+        calls = [n for n in ast.walk(st) if isinstance(n, ast.Call) and callee(n)]
+        if calls:
+            if len(calls) != 1 or i != len(body) - 1 or not (
+                    (isinstance(st, ast.Expr) and st.value is calls[0]) or
+                    (isinstance(st, ast.Return) and st.value is calls[0])):
+                raise TranslateError("%s.%s: the call of the grid is not the single last "
+                                     "statement (line %d)" % (cls, method, st.lineno))
+            call = calls[0]
+            continue
+        if is_guard(st):
+            touched = [n for n in ast.walk(st.test) if isinstance(n, ast.Name) and
+                       n.id in env.v and n.id not in opaque]
+            if touched:
+                raise TranslateError("%s.%s: guard on a modelled quantity (line %d)" % (
+                    cls, method, st.lineno))
+            continue
+        if isinstance(st, ast.Assign) and len(st.targets) == 1 and \
+                isinstance(st.targets[0], ast.Name):
+            nm = st.targets[0].id
+            for n in ast.walk(st.value):
+                if isinstance(n, ast.Attribute) and is_grid_expr(n.value) and \
+                        isinstance(getattr(n, "ctx", None), ast.Load) and \
+                        n.attr not in ("smoothing", "ratioPointsWall"):
+                    raise TranslateError("%s.%s reads grid.%s (line %d)" % (
+                        cls, method, n.attr, n.lineno))
+            try:
+                val = tr.expr(st.value, env)
+            except TranslateError:
+                if nm not in opaque_ok:
+                    raise
+                opaque.append(nm)
+                env.v[nm] = nm
+                continue
+            lets.append("let %s := %s in" % (nm, val))
+            env.v[nm] = nm
+            continue
+        raise TranslateError("%s.%s: statement outside the call-site subset: %s (line %d)" % (
+            cls, method, ast.unparse(st).splitlines()[0][:60], st.lineno))
+    if call is None:
+        raise TranslateError("%s.%s does not call the grid" % (cls, method))
+    if call.keywords:
+        raise TranslateError("%s.%s: keyword arguments in the grid call" % (cls, method))
+    if len(call.args) != len(result_names):
+        raise TranslateError("%s.%s passes %d arguments, expected %d" % (
+            cls, method, len(call.args), len(result_names)))
+    args = [tr.expr(a, env) for a in call.args]
+    text = "\n  ".join(lets + ["(" + ", ".join(args) + ")"])
+    ext = []
+    for p_ in tr.externals:
+        if p_ in tr.used_ext and p_.coq not in ext:
+            ext.append(p_.coq)
+    used = [q for q in params + opaque if pyrx._mentions_word(text, q)]
+    rec = "Record %senv := mk_%senv { %s }." % (
+        prefix, prefix, "; ".join("%s : R" % x for x in ext) or "%sunit : unit" % prefix)
+    return (rec + "\nDefinition %sargs (e : %senv) %s:=\n  %s." % (
+        prefix, prefix, "".join("(%s : R) " % q for q in used), text)), used, ext
+
+
+def generate_facts(sources):
+    """Coq text (appended to the generated module) + info"""
+    out = ["(* facts extracted from the rest of src/WallGo *)"]
+    w = foreign_grid_writes(sources)
+    out.append("(* places outside grid.py / grid3Scales.py that write to a grid object:%s *)" % (
+        "".join("\n   %s:%d  %s" % x for x in w) or " none"))
+    out.append("Definition foreign_grid_writes : nat := %d." % len(w))
+    P = pyrx.Pattern
+
+    def is_change(n):
+        return isinstance(n.func, ast.Attribute) and \
+            n.func.attr == "changePositionFalloffScale" and is_grid_expr(n.func.value)
+
+    def is_ctor(n):
+        return isinstance(n.func, ast.Name) and n.func.id == "Grid3Scales"
+    t1, used1, ext1 = call_site(
+        sources["equationOfMotion.py"], "EOM", "_updateGrid", is_change,
+        [P("self.meanFreePathScale", "eom_meanFreePathScale", "R"),
+         P("self.includeOffEq", "eom_includeOffEq", "R"),
+         P("self.grid.smoothing", "eom_smoothing", "R"),
+         P("self.grid.ratioPointsWall", "eom_ratioPointsWall", "R")],
+        ["widths", "offsets", "wallThicknessGrid", "wallCenterGrid"],
+        ["tailLengthInside", "tailLengthOutside", "wallThickness", "wallCenter"], "eom_")
+    out.append(t1)
+    t2, used2, ext2 = call_site(
+        sources["manager.py"], "WallGoManager", "buildGrid", is_ctor, [],
+        ["gridN", "gridM", "ratioPointsWall", "smoothing", "Tnucl"],
+        ["M", "N", "tailLengthInside", "tailLengthOutside", "wallThickness",
+         "momentumFalloffT", "ratioPointsWall", "smoothing"], "mgr_")
+    out.append(t2)
+    return "\n".join(out) + "\n", dict(foreign_grid_writes=w, eom_args=used1, eom_ext=ext1,
+                                        mgr_args=used2)
 
 
 if __name__ == "__main__":
     import sys
     import vlib
+    import glob
+    import os
     txt, inf = generate(vlib.read_src("grid.py"), vlib.read_src("grid3Scales.py"))
+    sys.stdout.write(txt)
+    srcs = {os.path.basename(f): open(f).read() for f in glob.glob(vlib.src_path("*.py"))}
+    txt, inf = generate_facts(srcs)
     sys.stdout.write(txt)
